@@ -1438,7 +1438,21 @@ func mapHelper(w *World, h *FuncInfo) (itemsIdx, fnIdx int, ok bool) {
 		return 0, 0, false
 	}
 	call, isCall := ast.Unparen(accs[0].values[0]).(*ast.CallExpr)
-	if !isCall || len(call.Args) != 1 || identOf(call.Args[0]) == nil || objOf(info, identOf(call.Args[0])) != objOf(info, valID) {
+	if !isCall {
+		return 0, 0, false
+	}
+	switch len(call.Args) {
+	case 1:
+		if identOf(call.Args[0]) == nil || objOf(info, identOf(call.Args[0])) != objOf(info, valID) {
+			return 0, 0, false
+		}
+	case 2: // f(index, item)
+		keyID := identOf(rs.Key)
+		if keyID == nil || identOf(call.Args[0]) == nil || objOf(info, identOf(call.Args[0])) != objOf(info, keyID) ||
+			identOf(call.Args[1]) == nil || objOf(info, identOf(call.Args[1])) != objOf(info, valID) {
+			return 0, 0, false
+		}
+	default:
 		return 0, 0, false
 	}
 	fid := identOf(call.Fun)
@@ -1458,4 +1472,65 @@ func mapHelper(w *World, h *FuncInfo) (itemsIdx, fnIdx int, ok bool) {
 		return true
 	})
 	return itemsIdx, fnIdx, returned
+}
+
+
+// vRange is a pass over a collection written as a call of a map helper with a callback: `mapTo(xs, func(i, x) R {…})`.
+// key and val are the callback's parameters (key nil when the callback takes the item only), ret its single
+// unconditional return value (nil when the callback has another shape).
+type vRange struct {
+	call     *ast.CallExpr
+	X        ast.Expr
+	key, val types.Object
+	lit      *ast.FuncLit
+	ret      ast.Expr
+}
+
+func virtualRanges(w *World, fi *FuncInfo) []vRange {
+	var out []vRange
+	if fi == nil || fi.Decl.Body == nil {
+		return nil
+	}
+	info := fi.Pkg.TypesInfo
+	ast.Inspect(fi.Decl.Body, func(x ast.Node) bool {
+		call, ok := x.(*ast.CallExpr)
+		if !ok {
+			return true
+		}
+		h := w.Funcs[calleeOf(info, call)]
+		if h == nil {
+			return true
+		}
+		ii, fi2, ok := mapHelper(w, h)
+		if !ok || ii >= len(call.Args) || fi2 >= len(call.Args) {
+			return true
+		}
+		lit, isLit := ast.Unparen(call.Args[fi2]).(*ast.FuncLit)
+		if !isLit {
+			return true
+		}
+		var ps []types.Object
+		for _, f := range lit.Type.Params.List {
+			for _, nm := range f.Names {
+				ps = append(ps, info.Defs[nm])
+			}
+		}
+		vr := vRange{call: call, X: call.Args[ii], lit: lit}
+		switch len(ps) {
+		case 1:
+			vr.val = ps[0]
+		case 2:
+			vr.key, vr.val = ps[0], ps[1]
+		default:
+			return true
+		}
+		if len(lit.Body.List) == 1 {
+			if ret, ok := lit.Body.List[0].(*ast.ReturnStmt); ok && len(ret.Results) == 1 {
+				vr.ret = ret.Results[0]
+			}
+		}
+		out = append(out, vr)
+		return true
+	})
+	return out
 }
